@@ -545,7 +545,8 @@ func (vc *VC) ptrHeaps(p ssa.Value, elemT types.Type) []heapAlt {
 	case *ssa.FieldAddr:
 		st := x.X.Type().Underlying().(*types.Pointer).Elem()
 		return []heapAlt{{vc.enc.FieldHeap(st, x.Field), x.Field}}
-	case *ssa.IndexAddr, *ssa.Alloc, *ssa.Global:
+	case *ssa.IndexAddr, *ssa.Alloc, *ssa.Global, *ssa.FreeVar:
+		// a free variable of a closure is the cell of a local variable of the enclosing function
 		return []heapAlt{{vc.enc.HeapFor(elemT), -1}}
 	case *ssa.Phi:
 		var out []heapAlt
